@@ -27,7 +27,8 @@ class RuleHarness:
         self.skeleton = params["skeleton"]
         self.holes = list(params["holes"])
         app.the_vfs()
-        self.en, self.dis = env.only_rule(self.rule)
+        self.rid = "md013" if self.rule == "md013x" else self.rule
+        self.en, self.dis = env.only_rule(self.rid)
         with NoTracing():
             self.tok = env.make_tokenizer()
 
@@ -39,6 +40,8 @@ class RuleHarness:
             v += [("maximum", "int")]
         elif self.rule == "md013":
             v += [("limit", "int"), ("strict", "bool")]
+        elif self.rule == "md013x":
+            v += [("limit", "int"), ("hlimit", "int"), ("climit", "int"), ("code_blocks", "bool"), ("headings", "bool")]
         return v
 
     def config(self, v):
@@ -55,6 +58,12 @@ class RuleHarness:
                 return None
             n = v["limit"]
             return {"line_length": n, "heading_line_length": n, "code_block_line_length": n, "strict": True if v["strict"] else False}
+        if self.rule == "md013x":
+            for k in ("limit", "hlimit", "climit"):
+                if not (1 <= v[k] <= 12):
+                    return None
+            return {"line_length": v["limit"], "heading_line_length": v["hlimit"], "code_block_line_length": v["climit"],
+                    "code_blocks": True if v["code_blocks"] else False, "headings": True if v["headings"] else False}
         return {}
 
     def body(self, v):
@@ -76,8 +85,9 @@ class RuleHarness:
             return SKIP
         if not (norm(g) == norm(_MD.render(d))):
             return SKIP
-        code, has_container, has_html = rrule.structure(_MD.parse(d))
-        sc = env.Scanner(enable=self.en, disable=self.dis, config={"plugins": {self.rule: cfg}}, tokenizer=self.tok)
+        mtoks = _MD.parse(d)
+        code, has_container, has_html = rrule.structure(mtoks)
+        sc = env.Scanner(enable=self.en, disable=self.dis, config={"plugins": {self.rid: cfg}}, tokenizer=self.tok)
         V = app.the_vfs()
         V.reset()
         V.put(F, d)
@@ -87,7 +97,7 @@ class RuleHarness:
             return SKIP
         if sc.errors:
             return SKIP
-        got = sorted({f.line_number for f in sc.pres.fails if f.rule_id.lower() == self.rule})
+        got = sorted({f.line_number for f in sc.pres.fails if f.rule_id.lower() == self.rid})
         lines = rrule.split_lines(d)
         if self.rule == "md009":
             want = rrule.md009(lines, code, cfg["br_spaces"], cfg["strict"])
@@ -99,6 +109,10 @@ class RuleHarness:
             want = rrule.md012(lines, code, cfg["maximum"])
         elif self.rule == "md013":
             want = rrule.md013(lines, cfg["line_length"], cfg["strict"])
+        elif self.rule == "md013x":
+            if has_container or has_html:
+                return SKIP
+            want = rrule.md013x(lines, code, rrule.heading_lines(mtoks), (cfg["line_length"], cfg["heading_line_length"], cfg["code_block_line_length"]), cfg["code_blocks"], cfg["headings"], False)
         elif self.rule == "md047":
             if len(d) == 0:
                 return SKIP
